@@ -217,6 +217,9 @@ def checkPoly (kvs okv : List (String × String)) : String := Id.run do
 
 def checkRingLine (kvs : List (String × String)) (rhs : String) : String :=
   let okv := splitKV rhs
+  -- `BBRing::choose` is the same operation as `BBSemiring::choose`
+  if (lookup okv "choose2").isSome && lookup okv "choose2" != lookup okv "choose" then
+    s!"FAIL SPEC BBRing::choose = {lookup okv "choose2"} differs from BBSemiring::choose = {lookup okv "choose"}" else
   match lookup kvs "type" with
   | some "ff" => checkFF kvs okv rhs
   | some "real" => if rhs.startsWith "panic:" then s!"FAIL SPEC {rhs}" else checkReal kvs okv
